@@ -160,7 +160,7 @@ type c25Case struct {
 
 func genC25(t *rapid.T) c25Case {
 	c := c25Case{Concurrent: rapid.IntRange(0, 3).Draw(t, "conc") == 0}
-	c.Ops = genSops(t, []string{"attach", "attach", "attach", "detach", "listen", "listen", "unlisten", "send", "anon"}, 3, 3, 14)
+	c.Ops = genSops(t, []string{"attach", "attach", "attach", "detach", "listen", "listen", "unlisten", "send", "anon", "lgate", "lrelease"}, 3, 3, 14)
 	for i := range c.Ops {
 		if c.Ops[i].Op == "send" {
 			c.Ops[i].Kind, c.Ops[i].Epoch = "honest", "current"
@@ -172,6 +172,16 @@ func genC25(t *rapid.T) c25Case {
 		p := (q + 1 + rapid.IntRange(0, 1).Draw(t, "rp")) % 3
 		pat := []sop{{Op: "listen", P: q, Q: p}, {Op: "attach", P: p, Q: q}, {Op: "detach", P: p, Q: q}, {Op: "listen", P: q, Q: p}}
 		at := rapid.IntRange(0, len(c.Ops)).Draw(t, "rat")
+		c.Ops = append(append(append([]sop{}, c.Ops[:at]...), pat...), c.Ops[at:]...)
+	}
+	if !c.Concurrent && rapid.IntRange(0, 3).Draw(t, "slowlisten") == 0 {
+		// a listener that reads slowly is replaced while the relay is still delivering an announcement to it; the
+		// replacement and the requester leave again before the slow one reads on
+		q := rapid.IntRange(0, 2).Draw(t, "sq")
+		p := (q + 1 + rapid.IntRange(0, 1).Draw(t, "sp")) % 3
+		pat := []sop{{Op: "listen", P: q, Q: p}, {Op: "lgate", P: q, Q: p}, {Op: "attach", P: p, Q: q}, {Op: "listen", P: q, Q: p},
+			{Op: "unlisten", P: q, Q: p}, {Op: "detach", P: p, Q: q}, {Op: "lrelease", P: q, Q: p}}
+		at := rapid.IntRange(0, len(c.Ops)).Draw(t, "sat")
 		c.Ops = append(append(append([]sop{}, c.Ops[:at]...), pat...), c.Ops[at:]...)
 	}
 	c.EndOrder = rapid.SliceOfN(rapid.IntRange(0, 30), 0, 12).Draw(t, "endorder")
@@ -269,6 +279,8 @@ func checkC25(c c25Case) (o vstat.Outcome) {
 		wg.Wait()
 		t.settle()
 	}
+	// every paused listener reads again before the calls are judged
+	t.releaseListenGates()
 	// replaced calls have ended with the replaced error
 	for _, s := range t.usurped {
 		if !waitFor(3*time.Second, func() bool { e, _ := s.ended(); return e }) {
